@@ -21,7 +21,7 @@ func (r *DumpResult) ToCSV(w io.Writer) error {
 // ToCSV writes a single database dump as CSV
 func (d *DatabaseDump) ToCSV(w io.Writer) error {
 	for _, table := range d.Tables {
-		fmt.Fprintf(w, "# Database: %s, Table: %s\n", d.Name, table.Name)
+		fmt.Fprintf(w, "# Database: %s, Table: %s\n", commentSafe(d.Name), commentSafe(table.Name))
 		if err := table.ToCSV(w); err != nil {
 			return err
 		}
